@@ -10,6 +10,7 @@ CONSTANTS MaxN = {maxn}
           UseKF = {usekf}
           ListLen = {listlen}
           Rich = {rich}
+          Sim = {sim}
 {view}
 CONSTRAINT Bound
 {emit}
@@ -31,9 +32,9 @@ CHECK_DEADLOCK FALSE
 """
 
 
-def gen(mode, maxn, maxe, maxh, view=True, emit="Emit", inv="", props="", legacy="{}", usekf="{}", listlen=1, rich=False):
+def gen(mode, maxn, maxe, maxh, view=True, emit="Emit", inv="", props="", legacy="{}", usekf="{}", listlen=1, rich=False, sim=False):
     return GEN.format(mode=mode, maxn=maxn, maxe=maxe, maxh=maxh, legacy=legacy, usekf=usekf, listlen=listlen,
-                      rich="TRUE" if rich else "FALSE", view="VIEW View" if view else "",
+                      rich="TRUE" if rich else "FALSE", sim="TRUE" if sim else "FALSE", view="VIEW View" if view else "",
                       emit=("ACTION_CONSTRAINT " + emit) if emit else "", inv=inv,
                       props=("PROPERTIES " + props) if props else "")
 
@@ -94,3 +95,25 @@ def cap(ctx, scripts, n, what):
     ctx.assume("%s: %d distinct scripts generated, a seeded sample of %d replayed in this tier" % (what, len(scripts), n))
     idx = sorted(ctx.rng.sample(range(len(scripts)), n))
     return [scripts[i] for i in idx]
+
+
+def sim_walks(ctx, cfg_text, name, total, depth, workers=4, timeout=3000):
+    """random walks with TLC -simulate; every worker produces its share (core.tlc_gen keeps only the first `num` printed
+    scripts, i.e. one worker's worth).  The model prints a walk from the state the walk really reached (DoFinishWalk)."""
+    import json
+    from ..core import RE_TAGGED, tla_unescape, ToolError, strip_scripts
+    per = (total + workers - 1) // workers
+    rc, out, dt = ctx.tlc("MC_CypherWrite", cfg_text, name, workers=workers, timeout=timeout, simulate=(per, depth))
+    if rc == 124:
+        raise ToolError("TLC generation %s timed out" % name)
+    if ("is violated" in out) or ("Error:" in out):
+        raise ToolError("TLC run %s failed on the design model (rc=%s):\n%s" % (name, rc, strip_scripts(out)[-3000:]))
+    scripts = [json.loads(tla_unescape(s)) for s in RE_TAGGED("SCRIPT").findall(out)][:total]
+    steps = sum(len(s) for s in scripts)
+    ctx.cov["states"] += steps
+    ctx.cov["transitions"] += steps
+    ctx.cov["scripts_generated"] += len(scripts)
+    ctx.cov["tlc_runs"].append({"run": name, "module": "MC_CypherWrite", "distinct_states": steps, "states_generated": steps, "depth": depth,
+                                "scripts": len(scripts), "mode": "simulate", "wall_s": round(dt, 1)})
+    ctx.log("TLC %s: %d random walks (%d steps), %.1fs" % (name, len(scripts), steps, dt))
+    return scripts
